@@ -124,7 +124,7 @@ def op_menu():
     """-> list of (label, xml, prefix, root, doc index or None, should_succeed)"""
     docs_ = base_docs()
     ops = []
-    picks = [(0, "xtce"), (0, "default"), (1, "q"), (1, "none"), (2, "default"), (2, "xtce"), (3, "none+xsi"), (3, "q"), (4, "none"), (5, "xtce")]
+    picks = [(0, "xtce"), (0, "default"), (1, "q"), (1, "none"), (2, "default"), (2, "XTCE"), (3, "none+xsi"), (3, "q"), (4, "none"), (5, "xtce")]
     for di, style in picks:
         ops.append((f"ok:{di}:{style}", render_xml(docs_[di], style), ns_prefix_arg(style), docs_[di].root, di, True))
     ops.append(("wrongprefix:0:xtce-as-q", render_xml(docs_[0], "xtce"), "q", docs_[0].root, None, False))
@@ -259,7 +259,7 @@ def run(ctx):
     for di, doc in enumerate(docs_):
         npos = count_positions(doc)
         for style in NS_STYLES:
-            if ctx.quick and style in ("q", "none+xsi"):
+            if ctx.quick and style in ("q", "none+xsi", "XTCE"):
                 pos = list(range(0, npos, 3))
                 ws = [False]
             else:
@@ -281,7 +281,7 @@ def run(ctx):
         "transitions": tally.transitions,
         "traces_validated_against_impl": tally.traces,
         "exhaustive": True,
-        "bound": (f"spellings: {len(docs_)} base documents x 5 namespace renderings x a comment at every inter-element position "
+        "bound": (f"spellings: {len(docs_)} base documents x 6 namespace renderings (prefix xtce, prefix q, an upper-case prefix XTCE, default namespace, none, none + xmlns:xsi) x a comment at every inter-element position "
                   f"({'every position for prefix xtce/default/none, every third for q and none+xsi' if ctx.quick else 'every position'}), all at once, "
                   f"x whitespace variants; histories: every sequence of <= {3 if ctx.quick else 4} operations over a {nops}-operation menu "
                   "(10 successful loads in different namespace conventions, 3 wrong-prefix loads, 4 loads that fail late inside the container/parameter set, 2 malformed inputs) followed by every target load (histories of length 4: every third target); "
